@@ -70,7 +70,7 @@ def replay(scn):
     viol, calls = [], 0
     n = len(i["arrs"])
     if i["op"] == "stack":
-        forms = [("list", "i"), ("tuple", "s"), ("dict", "i"), ("dict", "s"), ("list", "default")]
+        forms = [("list", "i"), ("tuple", "s"), ("dict", "i"), ("dict", "s"), ("list", "default"), ("dict+keys", "s"), ("dict+keys", "i")]
     else:
         forms = [("list", "name"), ("tuple", "pos"), ("list", "negpos")]
     for lk in ("i", "s"):
@@ -89,6 +89,9 @@ def replay(scn):
                     keys = None if kk == "default" else [codec.enc(h, kk) for h in i["keys"]]
                     if cont == "dict":
                         res = A.da.stack(dict(zip(keys, objs)), axis=i["newdim"], **kw)
+                    elif cont == "dict+keys":
+                        # a dict filled in another order, with the keys listed explicitly: the slice at key k is the entry k
+                        res = A.da.stack(dict(reversed(list(zip(keys, objs)))), axis=i["newdim"], keys=keys, **kw)
                     else:
                         seq = objs if cont == "list" else tuple(objs)
                         res = A.da.stack(seq, axis=i["newdim"], keys=keys, **kw) if keys is not None else A.da.stack(seq, axis=i["newdim"], **kw)
